@@ -71,6 +71,15 @@ func c17Mutators(p *Prog) *RuleResult {
 		if strings.Contains(pp, "/internal/") && pp != modPath+"/internal/fs" && pp != modPath+"/internal/logger" {
 			inner++
 		}
+		if _, listed := c17MutatorOwners[key]; !listed {
+			// a helper split off a reviewed owner: every in-module caller is the reviewed owner of this
+			// very call, and the helper is not used as a value
+			if from := excInheritedFromCallers(p, c17MutatorOwners, s.Caller, key); from != "" && !p.addressTaken(s.Caller) {
+				r.Exceptions++
+				r.OK(key, true, "called only from the reviewed owner(s) "+from)
+				continue
+			}
+		}
 		if !r.CheckExc(c17MutatorOwners, key) {
 			r.Fail(key, p.Pos(s.Instr.Pos()), "file-mutating call outside the reviewed owner table")
 		}
@@ -86,8 +95,20 @@ func c17Mutators(p *Prog) *RuleResult {
 		for _, e := range p.CallGraph().Nodes[mk].In {
 			r.Instances++
 			n := FuncName(e.Caller.Func)
+			viaWriter := false
+			if !allowed[n] && !p.addressTaken(e.Caller.Func) && len(e.Caller.In) > 0 {
+				// a helper called only from the writers
+				viaWriter = true
+				for _, e2 := range e.Caller.In {
+					if !allowed[FuncName(e2.Caller.Func)] {
+						viaWriter = false
+					}
+				}
+			}
 			if allowed[n] {
 				r.OK("fs.MkdirAll caller "+n, true, "one of the three writers")
+			} else if viaWriter {
+				r.OK("fs.MkdirAll caller "+n, true, "a helper called only from the three writers")
 			} else {
 				r.Fail("fs.MkdirAll caller "+n, p.Pos(e.Site.Pos()), "directory creation from a function that is not one of the reviewed writers")
 			}
@@ -160,6 +181,28 @@ func fieldCondFact(b *ssa.BasicBlock, field string) (val bool, ok bool) {
 	return false, false
 }
 
+func c17IsWriteCall(n string) bool {
+	return n == "io/ioutil.WriteFile" || n == "os.WriteFile" || n == modPath+"/internal/fs.MkdirAll" || n == "os.Create" || n == "os.OpenFile"
+}
+
+// c17WritesIn counts the file-writing calls in fn and (two levels deep) in the functions of its
+// package it calls.
+func c17WritesIn(fn *ssa.Function, depth int) int {
+	n := 0
+	eachInstr(fn, func(_ *ssa.BasicBlock, in ssa.Instruction) {
+		c, ok := in.(ssa.CallInstruction)
+		if !ok {
+			return
+		}
+		if c17IsWriteCall(calleeFullName(c)) {
+			n++
+		} else if callee := c.Common().StaticCallee(); callee != nil && callee.Parent() == nil && depth < 2 && callee != fn && pkgPathOf(callee) == pkgPathOf(fn) && len(callee.Blocks) > 0 {
+			n += c17WritesIn(callee, depth+1)
+		}
+	})
+	return n
+}
+
 func c17WriteGate(p *Prog) *RuleResult {
 	r := NewRule("C17/R2 write-gate", "every file write of a build is dominated by 'no errors ∧ writing enabled ∧ not stdout'; result fields that drive later writes are set only without errors")
 	rb := p.FindFunc("pkg/api.rebuildImpl")
@@ -184,8 +227,13 @@ func c17WriteGate(p *Prog) *RuleResult {
 				return
 			}
 			n := calleeFullName(c)
-			if n != "io/ioutil.WriteFile" && n != "os.WriteFile" && n != modPath+"/internal/fs.MkdirAll" && n != "os.Create" && n != "os.OpenFile" {
-				return
+			if !c17IsWriteCall(n) {
+				// a helper of the package that does the writing: the gate has to hold where it is called
+				callee := c.Common().StaticCallee()
+				if callee == nil || callee.Parent() != nil || pkgPathOf(callee) != pkgPathOf(rb) || c17WritesIn(callee, 0) == 0 {
+					return
+				}
+				nwrites += c17WritesIn(callee, 0) - 1
 			}
 			nwrites++
 			r.Instances++
